@@ -126,6 +126,34 @@ fn drive(ex: &mut Exec, w: &Shared, q: u64, done: &dyn Fn() -> bool) {
     ex.run();
 }
 
+/// Lets the harness decide when a task goes on: `pass()` waits for one ticket, `open()` hands one out and wakes the task.
+#[derive(Clone, Default)]
+struct Gate {
+    tickets: Rc<std::cell::Cell<usize>>,
+    waker: Rc<RefCell<Option<std::task::Waker>>>,
+}
+
+impl Gate {
+    fn open(&self) {
+        self.tickets.set(self.tickets.get() + 1);
+        if let Some(w) = self.waker.borrow_mut().take() {
+            w.wake();
+        }
+    }
+    fn try_pass(&self, cx: &mut std::task::Context<'_>) -> bool {
+        if self.tickets.get() > 0 {
+            self.tickets.set(self.tickets.get() - 1);
+            true
+        } else {
+            *self.waker.borrow_mut() = Some(cx.waker().clone());
+            false
+        }
+    }
+    async fn pass(&self) {
+        futures_util::future::poll_fn(|cx| if self.try_pass(cx) { std::task::Poll::Ready(()) } else { std::task::Poll::Pending }).await
+    }
+}
+
 /// `close=<code the peer sees (first close)>x<number of close calls>`
 fn closes(g: &World) -> String {
     let n = g.log.iter().filter(|l| l.starts_with("close ")).count();
@@ -303,26 +331,135 @@ fn main() {
                 Some(s) => format!("{} {}", s, closes(&w.lock().unwrap())),
             }
         }
-        ["rx", role, calls, form, payload, tail, chunk, pre] => {
+        ["cfg2", role, calls1, calls2, _g] => {
+            // one builder: CALLS1, build(), CALLS2, build() again; both connections' control streams
+            let (c1, c2) = (parse_calls(calls1), parse_calls(calls2));
+            let (w1, w2) = (World::new(side_of(role), 100, 100, None), World::new(side_of(role), 100, 100, None));
+            let mut ex = Exec::new();
+            let res: Rc<RefCell<Option<String>>> = Rc::new(RefCell::new(None));
+            let (wa, wb, res2, client) = (w1.clone(), w2.clone(), res.clone(), *role == "c");
+            ex.spawn(async move {
+                let mut errs = Vec::new();
+                if client {
+                    let mut b = h3::client::builder();
+                    client_calls(&mut b, &c1);
+                    let k1 = b.build::<_, _, Bytes>(SimConn { world: wa }).await;
+                    client_calls(&mut b, &c2);
+                    let k2 = b.build::<_, _, Bytes>(SimConn { world: wb }).await;
+                    for k in [&k1, &k2] {
+                        if let Err(e) = k {
+                            errs.push(code_of_conn_err(e));
+                        }
+                    }
+                    *res2.borrow_mut() = Some(if errs.is_empty() { "ok".into() } else { format!("err {}", errs.join(",")) });
+                    std::future::pending::<()>().await;
+                    drop((k1, k2));
+                } else {
+                    let mut b = h3::server::builder();
+                    server_calls(&mut b, &c1);
+                    let k1 = b.build::<_, Bytes>(SimConn { world: wa }).await;
+                    server_calls(&mut b, &c2);
+                    let k2 = b.build::<_, Bytes>(SimConn { world: wb }).await;
+                    for k in [&k1, &k2] {
+                        if let Err(e) = k {
+                            errs.push(code_of_conn_err(e));
+                        }
+                    }
+                    *res2.borrow_mut() = Some(if errs.is_empty() { "ok".into() } else { format!("err {}", errs.join(",")) });
+                    std::future::pending::<()>().await;
+                    drop((k1, k2));
+                }
+                String::new()
+            });
+            ex.run();
+            let r = res.borrow().clone();
+            match r {
+                Some(s) if s == "ok" => {
+                    let mut out = String::from("ok");
+                    for w in [&w1, &w2] {
+                        let g = w.lock().unwrap();
+                        let ctl: Vec<Vec<u8>> =
+                            g.local_streams().into_iter().map(|id| g.tx_of(id)).filter(|b| b.first() == Some(&0u8)).collect();
+                        if ctl.len() != 1 || g.closed.is_some() {
+                            return format!("ok control-streams={} closed={}", ctl.len(), g.closed.is_some());
+                        }
+                        out.push(' ');
+                        out.push_str(&hex(&ctl[0]));
+                    }
+                    out
+                }
+                Some(s) => s,
+                None => "pending".into(),
+            }
+        }
+        ["rx", role, calls, form, payload, tail, chunk, pre, act] => {
             let p = unhex(payload);
             let tail = unhex(tail);
             let chunk: usize = chunk.parse().unwrap();
             let client = *role == "c";
             let calls = parse_calls(calls);
+            // ACT: what the application does before the peer's SETTINGS are read: sd = shutdown(), rq = a request is in
+            // flight (client: sent; server: accepted); ra = a request after the SETTINGS were delivered
+            let (act_sd, act_rq, act_ra) = (act.contains("sd"), act.contains("rq"), act.contains("ra"));
             let w = World::new(side_of(role), 100, 100, None);
             let mut ex = Exec::new();
             let res: Rc<RefCell<Option<String>>> = Rc::new(RefCell::new(None));
             let shared: Rc<RefCell<Option<Arc<SharedState>>>> = Rc::new(RefCell::new(None));
-            let (w2, res2, shared2) = (w.clone(), res.clone(), shared.clone());
+            // every public handle that answers settings(): (name, reader)
+            let views: Rc<RefCell<Vec<(String, Box<dyn Fn() -> String>)>>> = Rc::new(RefCell::new(Vec::new()));
+            // (epoch at which it was read, values): the Connection handle is inside the task and can only be read when it runs
+            let conn_view: Rc<RefCell<Option<(usize, String)>>> = Rc::new(RefCell::new(None));
+            let epoch: Rc<std::cell::Cell<usize>> = Rc::new(std::cell::Cell::new(0));
+            let gate = Gate::default();
+            let (w2, res2, shared2, views2, cv2, gate2, ep2) =
+                (w.clone(), res.clone(), shared.clone(), views.clone(), conn_view.clone(), gate.clone(), epoch.clone());
             ex.spawn(async move {
+                let get = || http::Request::builder().method("GET").uri("https://a/").body(()).unwrap();
                 if client {
                     let mut b = h3::client::builder();
                     client_calls(&mut b, &calls);
                     match b.build::<_, _, Bytes>(SimConn { world: w2 }).await {
-                        Ok((mut conn, _send)) => {
+                        Ok((mut conn, send)) => {
                             *shared2.borrow_mut() = Some(conn.inner.shared.clone());
-                            let e = futures_util::future::poll_fn(|cx| conn.poll_close(cx)).await;
-                            *res2.borrow_mut() = Some(format!("err {}", code_of_conn_err(&e)));
+                            let s1 = send.clone();
+                            views2.borrow_mut().push(("SendRequest".into(), Box::new(move || applied(&s1))));
+                            let mut send = send;
+                            if act_rq {
+                                if let Ok(st) = send.send_request(get()).await {
+                                    views2.borrow_mut().push(("client::RequestStream(before)".into(), Box::new(move || applied(&st))));
+                                }
+                            }
+                            if act_sd {
+                                let _ = conn.shutdown(0).await;
+                            }
+                            // the driver; when the harness opens the gate (after the SETTINGS were delivered) a request is sent
+                            let mut late = act_ra;
+                            loop {
+                                let step = futures_util::future::poll_fn(|cx| {
+                                    let r = conn.poll_close(cx);
+                                    *cv2.borrow_mut() = Some((ep2.get(), applied(&conn)));
+                                    if let std::task::Poll::Ready(e) = r {
+                                        return std::task::Poll::Ready(Some(e));
+                                    }
+                                    if late && gate2.try_pass(cx) {
+                                        return std::task::Poll::Ready(None);
+                                    }
+                                    std::task::Poll::Pending
+                                })
+                                .await;
+                                match step {
+                                    Some(e) => {
+                                        *res2.borrow_mut() = Some(format!("err {}", code_of_conn_err(&e)));
+                                        break;
+                                    }
+                                    None => {
+                                        late = false;
+                                        if let Ok(st) = send.send_request(get()).await {
+                                            views2.borrow_mut().push(("client::RequestStream(after)".into(), Box::new(move || applied(&st))));
+                                        }
+                                    }
+                                }
+                            }
                             // keep the connection alive: dropping it is not part of the observation
                             std::future::pending::<()>().await;
                         }
@@ -334,10 +471,27 @@ fn main() {
                     match b.build::<_, Bytes>(SimConn { world: w2 }).await {
                         Ok(mut conn) => {
                             *shared2.borrow_mut() = Some(conn.inner.shared.clone());
-                            match conn.accept().await {
-                                Ok(Some(_)) => *res2.borrow_mut() = Some("request".into()),
-                                Ok(None) => *res2.borrow_mut() = Some("accept-none".into()),
-                                Err(e) => *res2.borrow_mut() = Some(format!("err {}", code_of_conn_err(&e))),
+                            if act_sd {
+                                let _ = conn.shutdown(2).await;
+                            }
+                            loop {
+                                let r = conn.accept().await;
+                                *cv2.borrow_mut() = Some((ep2.get(), applied(&conn)));
+                                match r {
+                                    Ok(Some(resolver)) => {
+                                        let rv = applied(&resolver);
+                                        views2.borrow_mut().push(("RequestResolver(at accept)".into(), Box::new(move || rv.clone())));
+                                        if let Ok((_req, st)) = resolver.resolve_request().await {
+                                            views2.borrow_mut().push(("server::RequestStream".into(), Box::new(move || applied(&st))));
+                                        }
+                                    }
+                                    // accept() has nothing more to hand out: call it again when the harness delivered something
+                                    Ok(None) => gate2.pass().await,
+                                    Err(e) => {
+                                        *res2.borrow_mut() = Some(format!("err {}", code_of_conn_err(&e)));
+                                        break;
+                                    }
+                                }
                             }
                             std::future::pending::<()>().await;
                         }
@@ -354,7 +508,15 @@ fn main() {
             if before != applied(&SharedState::default()) {
                 return format!("defaults-not-in-force {}", before);
             }
-            // the peer's control stream: type 00, then the SETTINGS frame, then TAIL
+            // a request of the peer (server role): HEADERS of GET https://a/ on bidi stream 0
+            let peer_request = |w: &Shared, ex: &mut Exec| {
+                apply_event(w, "B0");
+                apply_event(w, "0:c:01080000d1d7500161c1");
+                ex.run();
+            };
+            if act_rq && !client {
+                peer_request(&w, &mut ex);
+            }
             // PRE: other uni streams the peer opens (and partly fills) BEFORE its control stream; comma-separated hex of
             // the bytes delivered on each (`0` = opened, nothing delivered yet, `-` = no such streams).  They stay silent.
             let mut id: u64 = if client { 3 } else { 2 };
@@ -364,6 +526,9 @@ fn main() {
                     if item != "0" {
                         apply_event(&w, &format!("{}:c:{}", id, item));
                     }
+                    if !client {
+                        gate.open();
+                    }
                     ex.run();
                     id += 4;
                 }
@@ -372,10 +537,27 @@ fn main() {
             bytes.extend(settings_frame(form.parse().unwrap(), &p));
             bytes.extend_from_slice(&tail);
             apply_event(&w, &format!("U{}", id));
+            if !client {
+                gate.open();
+            }
             ex.run();
             let step = if chunk == 0 { bytes.len() } else { chunk };
             for c in bytes.chunks(step) {
+                epoch.set(epoch.get() + 1);
                 apply_event(&w, &format!("{}:c:{}", id, hex(c)));
+                if !client {
+                    gate.open();
+                }
+                ex.run();
+            }
+            if act_ra && res.borrow().is_none() {
+                if client {
+                    gate.open();
+                    ex.run();
+                } else {
+                    peer_request(&w, &mut ex);
+                }
+                gate.open();
                 ex.run();
             }
             let r = res.borrow().clone();
@@ -386,10 +568,23 @@ fn main() {
                     if g.closed.is_some() {
                         return format!("ok-but-closed {}", closes(&g));
                     }
-                    match shared.borrow().as_ref() {
-                        Some(s) => format!("ok {}", applied(&**s)),
-                        None => "no-conn".into(),
+                    let main = match shared.borrow().as_ref() {
+                        Some(s) => applied(&**s),
+                        None => return "no-conn".into(),
+                    };
+                    // every handle must show the same values in force
+                    if let Some((e, cv)) = conn_view.borrow().as_ref() {
+                        if *e == epoch.get() && *cv != main {
+                            return format!("handle-mismatch Connection {}", cv);
+                        }
                     }
+                    for (name, f) in views.borrow().iter() {
+                        let v = f();
+                        if v != main && !name.contains("at accept") {
+                            return format!("handle-mismatch {} {}", name, v);
+                        }
+                    }
+                    format!("ok {}", main)
                 }
             }
         }
